@@ -8,10 +8,16 @@ pub struct Meta {
     pub assumptions: Vec<&'static str>,
 }
 pub mod c02;
+pub mod c04;
+pub mod c05;
+pub mod c06;
 
 pub fn units(prop: &str, tier: Tier, seed: u64) -> Option<(Vec<Unit>, Meta)> {
     Some(match prop {
         "C02" => (c02::units(tier, seed), c02::meta()),
+        "C04" => (c04::units(tier, seed), c04::meta()),
+        "C05" => (c05::units(tier, seed), c05::meta()),
+        "C06" => (c06::units(tier, seed), c06::meta()),
         _ => return None,
     })
 }
